@@ -164,13 +164,20 @@ def h_two_grids():
             ins, raw, grids = ins[::-1], raw[::-1], grids[::-1]
         D = data.Data(ins, dim_agg_length=h, dim_agg_axis=ax.Leadtime(), dim_agg_method=ref.make_aggregator(aggmod, name))
         S.prove("common-lead-times", [float(x) for x in D.leadtimes] == [0.0, 6.0, 12.0])
-        for k in range(2):
+        first = S.choose("first-request", 2)
+        for k in ([0, 1] if first == 0 else [1, 0]):
             got = D.get_scores(f.Fcst(), k, ax.All(), None)
+            gobs = D.get_scores(f.Obs(), k, ax.All(), None)
             g = grids[k]
             for j, lt in enumerate([0.0, 6.0, 12.0]):
                 members = [raw[k][1][0, i, 0] for i in range(4) if g[i] <= lt and g[i] > lt - h]
                 want = ref.r_agg(S, name, members)
                 S.prove("window-on-the-inputs-own-grid", S.same(got[0, j, 0], want), twin=S.same(got[0, j, 0], want + 1),
+                        detail="input %d/%s/T%d" % (k, name, h))
+                # observations are pre-aggregated identically, on the grid of the input they are read from
+                omembers = [raw[k][0][0, i, 0] for i in range(4) if g[i] <= lt and g[i] > lt - h]
+                owant = ref.r_agg(S, name, omembers)
+                S.prove("observations-windowed-on-their-own-inputs-grid", S.same(gobs[0, j, 0], owant), twin=S.same(gobs[0, j, 0], owant + 1),
                         detail="input %d/%s/T%d" % (k, name, h))
     return fn
 
